@@ -31,3 +31,92 @@ Proof. vm_compute. reflexivity. Qed.
 Example C12_pinned_commit_refuted :
   well_bracketed [mkEv KBegin true [x2f; x61] true; mkEv KBegin true [] false] = false.
 Proof. vm_compute. reflexivity. Qed.
+
+(** * the full statement, proved (Tree/TraceProofs.v) *)
+Theorem C12_all_faults : C12_full_statement.
+Proof. exact c12_all_faults. Qed.
+Print Assumptions C12_all_faults.
+
+(** the fault-free run satisfies the same requirements and none of its callbacks fails *)
+Corollary C12_clean_run : forall root t,
+  wf_tree root t = true ->
+  well_bracketed (run_clean t) = true /\
+  no_write_after_failure false (run_clean t) = true /\
+  in_scope root (run_clean t) = true /\
+  any_failed (run_clean t) = false.
+Proof. exact c12_clean_run. Qed.
+Print Assumptions C12_clean_run.
+
+(** whatever the plan, the whole requirement [c12_ok] holds of the model's trace as soon as the
+    API call reports the injected error whenever a callback failed *)
+Corollary C12_c12_ok : forall root t k errored wrapped,
+  wf_tree root t = true ->
+  (any_failed (run_fault t k) = true -> errored = true /\ wrapped = true) ->
+  c12_ok root (run_fault t k) errored wrapped = true.
+Proof.
+  intros root t k errored wrapped Hwf Herr. destruct (c12_all_faults root t k Hwf) as [A [B C]].
+  unfold c12_ok. rewrite A, B, C. simpl.
+  destruct (any_failed (run_fault t k)); simpl; auto.
+  destruct (Herr eq_refl) as [-> ->]. reflexivity.
+Qed.
+
+(** the model's failure flag is exactly "some callback failed" *)
+Corollary C12_failure_flag : forall t k, no_marks t = true ->
+  snd (run t (Some k)) = any_failed (run_fault t k).
+Proof. intros. apply run_flag_iff_any_failed. assumption. Qed.
+
+(** [wf_tree] is not vacuous: it holds of the non-trivial tree above, so the theorem covers it
+    (for every k, not only the 21 computed ones) *)
+Definition c12_example_root : path := [x2f; x61; x2f; x62].
+Definition c12_example_tree : etree :=
+  let root := c12_example_root in
+  Frame [root; [x2f; x61]; []] true
+    [Ev (mkEv KRead false root true); Ev (mkEv KWrite true root true);
+     Frame [[x2f; x61; x2f; x62; x2f; x63]] true [Ev (mkEv KRead false root true); Ev (mkEv KWrite true [x2f; x61; x2f; x62; x2f; x63] true)];
+     Ev (mkEv KWrite true root true)].
+
+Example C12_example_wf : wf_tree c12_example_root c12_example_tree = true.
+Proof. vm_compute. reflexivity. Qed.
+
+Example C12_example_every_k : forall k,
+  well_bracketed (run_fault c12_example_tree k) = true /\
+  no_write_after_failure false (run_fault c12_example_tree k) = true /\
+  in_scope c12_example_root (run_fault c12_example_tree k) = true.
+Proof. intros k. apply C12_all_faults. exact C12_example_wf. Qed.
+
+(** sibling frames on the same node, one after the other, are well formed *)
+Example C12_example_wf_siblings :
+  wf_tree [x2f; x61] (Frame [[x2f; x61]] true [Frame [[x2f; x61; x2f; x62]] true []; Frame [[x2f; x61; x2f; x62]] true []]) = true.
+Proof. vm_compute. reflexivity. Qed.
+
+(** each conjunct of [wf_tree] is needed: a tree violating only that conjunct, and a fault
+    position (here: none, k beyond the end) at which the corresponding requirement fails *)
+Example C12_wf_needs_nodup_chain :       (* a chain naming a node twice *)
+  let t := Frame [[x2f; x61]; [x2f; x61]] true [] in
+  no_marks t && frame_scoped [x2f; x61] t = true /\ disjoint_nesting t = false /\
+  well_bracketed (run_fault t 9) = false.
+Proof. vm_compute. auto. Qed.
+
+Example C12_wf_needs_disjoint_nesting :  (* a nested frame reopening the node its parent holds open *)
+  let t := Frame [[x2f; x61]] true [Frame [[x2f; x61]] true []] in
+  no_marks t && frame_scoped [x2f; x61] t = true /\ disjoint_nesting t = false /\
+  well_bracketed (run_fault t 9) = false.
+Proof. vm_compute. auto. Qed.
+
+Example C12_wf_needs_no_marks_kind :     (* a stray begin among a body's plain events *)
+  let t := Frame [[x2f; x61]] true [Ev (mkEv KBegin true [x2f; x61] true)] in
+  frame_scoped [x2f; x61] t && disjoint_nesting t = true /\ no_marks t = false /\
+  well_bracketed (run_fault t 9) = false.
+Proof. vm_compute. auto. Qed.
+
+Example C12_wf_needs_no_marks_ok :       (* a fault-free shape that already contains a failed read, followed by a write *)
+  let t := Frame [[x2f; x61]] true [Ev (mkEv KRead true [x2f; x61] false); Ev (mkEv KWrite true [x2f; x61] true)] in
+  frame_scoped [x2f; x61] t && disjoint_nesting t = true /\ no_marks t = false /\
+  no_write_after_failure false (run_fault t 9) = false.
+Proof. vm_compute. auto. Qed.
+
+Example C12_wf_needs_frame_scoped :      (* a frame on a node beside the edit root *)
+  let t := Frame [[x2f; x7a]] true [] in
+  no_marks t && disjoint_nesting t = true /\ frame_scoped [x2f; x61] t = false /\
+  in_scope [x2f; x61] (run_fault t 9) = false.
+Proof. vm_compute. auto. Qed.
